@@ -1018,8 +1018,8 @@ static void list_output_msp430_both(
 
 static void disasm_range_msp430_both(
   Memory *memory,
-  int start,
-  int end,
+  uint32_t start,
+  uint32_t end,
   int msp430x)
 {
   // Are these correct and the same for all MSP430's?
